@@ -11,7 +11,7 @@ from ..runner import CheckFailure, Stats, fail, hyp_search
 ID = "C10"
 RULE = (
     "Exhaustive: every string of length <= N over three alphabets - integer (0 1 2 7 8 9 x X b B a f A F g u U l L), "
-    "floating (0 1 9 . e E p P + - f F l L x a g) and character/string (' \" \\ a n x 0 8 u U L q ( ? blank newline) - N = 5 "
+    "floating (0 1 9 . e E p P + - f F l L x a g) and character/string (' \" \\ a n x 0 8 u U L q ( ? / * blank newline) - N = 5 "
     "(quick) / 6 (thorough, character family 5 + sampled 6). Sandwich oracle: (i) a string that is a well-formed literal under "
     "the strict C99 reference comes back as exactly one token of that class, same spelling, no error; (ii) a string returned as "
     "one literal token without error is a literal of that class under the lenient reference (strict + 0b, u8/u/U, lenient "
@@ -25,7 +25,7 @@ ASSUMPTIONS = ["strict/lenient literal grammars of vlib/reflex.py; where the two
 
 ALPH_INT = list("0127 89xXbBafAFguUlL".replace(" ", ""))
 ALPH_FLT = list("019.eEpP+-fFlLxag")
-ALPH_CHR = list("'\"\\anx08uULq(? \n")
+ALPH_CHR = list("'\"\\anx08uULq(? \n/*")
 
 LITERAL_CLASSES = {
     "INT_CONST_DEC", "INT_CONST_OCT", "INT_CONST_HEX", "INT_CONST_BIN", "INT_CONST_CHAR", "FLOAT_CONST", "HEX_FLOAT_CONST",
